@@ -23,6 +23,12 @@ CHECKS["C20"] = dict(
     note="Trusts TLC, the build-time instrumentation (harness/cmd/hookgen, statement granularity, package-level variables of object/hashtable.go only) and the event order recorded under the tracer's mutex.",
     design="§5 C20")
 
+CHECKS["C18"] = dict(
+    technique="TLA+ spec PanOrder states the equality/ordering laws over a recorded relation table; the table (pool of ~80 values x 7 operators, max/min, between?/clip) is recorded from the real interpreter and TLC checks every law on every pair and same-family triple (trace validation of a recorded table)",
+    text="Exhaustive law checking (reflexivity, symmetry, negation, trichotomy, unions, antisymmetry, transitivity, max/min/between?/clip agreement) by TLC over the relation table recorded from the interpreter for a fixed pool covering every built-in data type and typed descendants; pool-bounded, not a proof over all values.",
+    note="Trusts TLC and the canonical rendering used to identify which operand max/min/clip returned; the pool defines the scope (NaN/Inf are not constructible).",
+    design="§5 C18")
+
 NOT_YET = {}
 
 def main():
